@@ -290,14 +290,43 @@ pub fn text_or_bed3(t: Option<Text>) -> (r: Text)
 pub open spec fn stored_text(t: Option<Text>) -> Seq<u8> {
     match t { Some(x) => x.bytes(), None => bed3() }
 }
-/// number of fields of the LAST declaration `parse_autosql` finds in the text (None: parse error or no
-/// declaration): abstract, the parser is units asql / asql_loops
-pub uninterp spec fn parsed_field_count(t: Seq<u8>) -> Option<usize>;
-/// the labelled block `'field_count: { parse_autosql(&autosql) .. declarations.pop() .. Some(decl.fields.len()) }`
+/// what `parse_autosql` finds in the text: the field count of every declaration, in order (None: parse error).
+/// Abstract here; the parser itself is units asql_loops / asql_tok.
+pub uninterp spec fn decl_counts(t: Seq<u8>) -> Option<Seq<int>>;
+/// the header's field count is that of the LAST declaration (helper `simple`/`object` declarations come first, the
+/// table that describes the rows is last); None: parse error or no declaration at all
+pub open spec fn parsed_field_count(t: Seq<u8>) -> Option<usize> {
+    match decl_counts(t) {
+        Some(c) => if c.len() > 0 && 0 <= c.last() <= usize::MAX { Some(c.last() as usize) } else { None },
+        None => None,
+    }
+}
+pub struct Decl { pub fields: Vec<u8> }
+pub struct ParseErr {}
+/// `parse_autosql(&autosql)` (ASSUMED contract: the declarations of the text, in order, each with its fields)
 #[verifier::external_body]
-pub fn schema_field_count(t: &Text) -> (r: Option<usize>)
-    ensures r == parsed_field_count(t.bytes()),
+pub fn parse_decls(t: &Text) -> (r: Result<Vec<Decl>, ParseErr>)
+    ensures
+        r is Ok <==> decl_counts(t.bytes()) is Some,
+        r matches Ok(v) ==> v@.len() == decl_counts(t.bytes())->Some_0.len()
+            && forall|i: int| 0 <= i < v@.len() ==> (#[trigger] v@[i]).fields@.len() == decl_counts(t.bytes())->Some_0[i],
 { unimplemented!() }
+// the labelled block `'field_count: { .. break 'field_count X; .. }` of write_pre (Verus has no labelled blocks): hoisted
+// MECHANICALLY into this function -- body = the block's text, `break 'field_count X` -> `return X`,
+// `parse_autosql(&autosql)` -> `parse_decls(autosql)`; write_pre below calls it where the block stood.
+pub fn schema_field_count(autosql: &Text) -> (r: Option<usize>)
+    ensures
+        
+        r == parsed_field_count(autosql.bytes()),
+{
+            let Ok(mut declarations) = parse_decls(autosql) else {
+                return None;
+            };
+            let Some(decl) = declarations.pop() else {
+                return None;
+            };
+            Some(decl.fields.len())
+}
 
 pub open spec fn has_nul(s: Seq<u8>) -> bool { exists|i: int| 0 <= i < s.len() && #[trigger] s[i] == 0u8 }
 /// `std::ffi::CString` / `NulError`
